@@ -39,6 +39,14 @@ func fieldsWrittenOn(fn *ssa.Function, base ssa.Value, n *types.Named) map[strin
 }
 
 func runC05(w *World, r *Report) {
+	// ---- visits-all: every channel, pending input and task is saved / restored
+	r.Rule("C05.visits-all", "the loops that save, convert, restore and reload checkpoint contents are left only when exhausted or with an error", 6)
+	ruleLoopsTotal(w, r, "C05.visits-all", []*ssa.Function{
+		w.Fn("compose", "runner.handleInterrupt"), w.Fn("compose", "runner.restoreTasks"),
+		w.Fn("compose", "checkPointer.convertCheckPoint"), w.Fn("compose", "checkPointer.restoreCheckPoint"), w.Fn("compose", "convert"), w.Fn("compose", "restore"),
+		w.Fn("compose", "channelManager.loadChannels"), w.Fn("compose", "dagChannel.load"), w.Fn("compose", "pregelChannel.load"),
+	}, map[string]string{}, "a channel, pending input or task is missing from the checkpoint or from the resumed run")
+
 	cpT := w.Named("compose", "checkpoint")
 	run := w.Fn("compose", "runner.run")
 	hInt := w.Fn("compose", "runner.handleInterrupt")
